@@ -411,6 +411,25 @@ def run(ctx: Ctx) -> int:
                 kinds_at[pos] = next(iter(_kind_names(i.value)), None)
     ctx.oblige("C13.d", kinds_at == {1: "VAR_POSITIONAL", 2: "VAR_KEYWORD"}, ret[0], "the function returns (params, index of *args, index of **kwargs, ...) in that order: every caller unpacks it so", fn=fsig)
 
+    # default expressions are looked up by parameter name in the function's source: the name list and the default list
+    # must be aligned the way Python aligns them - positional-only parameters first, then the ordinary ones, `defaults`
+    # right-aligned on those two; keyword-only parameters pair one-to-one with `kw_defaults`
+    fdn = ctx.func(f"{M}:ParametersVisitor.get_default_nodes")
+    txt = ast.unparse(fdn)
+    sums = [n for n in ast.walk(fdn) if isinstance(n, ast.BinOp) and isinstance(n.op, ast.Add) and "posonlyargs" in ast.unparse(n.left) and ast.unparse(n.right).endswith(".args")]
+    sums_rev = [n for n in ast.walk(fdn) if isinstance(n, ast.BinOp) and isinstance(n.op, ast.Add) and "posonlyargs" in ast.unparse(n.right) and ast.unparse(n.left).endswith(".args")]
+    ctx.need(sums or sums_rev, "get_default_nodes: posonlyargs + args")
+    ctx.oblige("C13.d", bool(sums) and not sums_rev, (sums or sums_rev)[0], "positional-only parameters come before the ordinary ones when names are paired with default expressions (the order of the signature): reversed, a class-instance default is paired with the wrong parameter and is not turned into a class_path / init_args default - the one object of the signature is then handed to every instantiation", fn=fdn)
+    pad = [n for n in ast.walk(fdn) if isinstance(n, ast.BinOp) and isinstance(n.op, ast.Add) and isinstance(n.left, ast.BinOp) and isinstance(n.left.op, ast.Mult) and ast.unparse(n.right).endswith(".defaults")]
+    okpad = len(pad) == 1
+    if okpad:
+        m = pad[0].left
+        lst, cnt = (m.left, m.right) if isinstance(m.left, ast.List) else (m.right, m.left)
+        okpad = isinstance(lst, ast.List) and len(lst.elts) == 1 and isinstance(lst.elts[0], ast.Constant) and lst.elts[0].value is None and isinstance(cnt, ast.BinOp) and isinstance(cnt.op, ast.Sub) and ast.unparse(cnt.right).endswith(".defaults)") and ast.unparse(cnt.left).startswith("len(")
+    ctx.oblige("C13.d", okpad, pad[0] if pad else fdn, "`defaults` is right-aligned on the positional parameters ([None] * (number of parameters - number of defaults) in front)", fn=fdn)
+    okkw = "kwonlyargs" in txt and "kw_defaults" in txt
+    ctx.oblige("C13.d", okkw, fdn, "keyword-only parameters and their defaults (`kwonlyargs` / `kw_defaults`) are part of the lookup" if okkw else "get_default_nodes ignores keyword-only parameters: for `def __init__(self, *, cal: Calendar = Calendar(firstweekday=1), **kwargs): super().__init__(a=5, **kwargs)` the number of default nodes differs from the number of instance defaults, the assertion in replace_param_default_subclass_specs fails, the source-based resolver gives up and the assumption fallback offers the hard-coded `a` - instantiation raises \"got multiple values for keyword argument 'a'\"", fn=fdn, construct="keyword-only defaults")
+
     # =========================================================== C13.e
     fpg = ctx.func(f"{M}:ast_is_kwargs_pop_or_get")
     rets = [r for r in walk_local(fpg) if isinstance(r, ast.Return) and r.value is not None]
